@@ -162,3 +162,44 @@ fn find_related_text() {
     }
     println!("NO-WITNESS find_related_text");
 }
+
+/// clauses Handles::{union, intersection, add, contains}  (C08): set semantics of the handle collections, every pair of
+/// duplicate-free sequences of length <= 4 over 5 handles (sorted and unsorted)
+#[test]
+fn find_handles_setops() {
+    let store = AnnotationStore::default();
+    let h = |v: &[u32]| Handles::<Annotation>::from_iter(v.iter().map(|x| AnnotationHandle::new(*x as usize)), &store);
+    let n = 5u32;
+    let mut seqs: Vec<Vec<u32>> = vec![vec![]];
+    let mut frontier: Vec<Vec<u32>> = vec![vec![]];
+    for _ in 0..4 {
+        let mut next = vec![];
+        for s in &frontier { for x in 0..n { if !s.contains(&x) { let mut t = s.clone(); t.push(x); next.push(t); } } }
+        seqs.extend(next.clone());
+        frontier = next;
+    }
+    for va in &seqs { for vb in &seqs {
+        let b = h(vb);
+        let mut a = h(va);
+        a.union(&b);
+        let got: Vec<u32> = a.iter().map(|x| x.as_usize() as u32).collect();
+        let mut g2 = got.clone(); g2.sort(); g2.dedup();
+        let mut want: Vec<u32> = va.clone(); for x in vb { if !want.contains(x) { want.push(*x); } } want.sort();
+        let member_ok = (0..n).all(|x| a.contains(&AnnotationHandle::new(x as usize)) == want.contains(&x));
+        if g2 != want || g2.len() != got.len() || !member_ok {
+            println!("WITNESS {{\"clause\":\"Handles::union\",\"self\":\"{:?}\",\"other\":\"{:?}\",\"result\":\"{:?}\",\"sorted_flag\":{},\"contains_agrees\":{}}}", va, vb, got, a.returns_sorted(), member_ok);
+            return;
+        }
+        let mut a = h(va);
+        a.intersection(&b);
+        let got: Vec<u32> = a.iter().map(|x| x.as_usize() as u32).collect();
+        let mut g2 = got.clone(); g2.sort();
+        let mut want: Vec<u32> = va.iter().copied().filter(|x| vb.contains(x)).collect(); want.sort();
+        let member_ok = (0..n).all(|x| a.contains(&AnnotationHandle::new(x as usize)) == want.contains(&x));
+        if g2 != want || !member_ok {
+            println!("WITNESS {{\"clause\":\"Handles::intersection\",\"self\":\"{:?}\",\"other\":\"{:?}\",\"result\":\"{:?}\",\"sorted_flag\":{},\"contains_agrees\":{}}}", va, vb, got, a.returns_sorted(), member_ok);
+            return;
+        }
+    }}
+    println!("NO-WITNESS find_handles_setops");
+}
